@@ -22,7 +22,7 @@
      - the name scan stops where the name ends: what follows an atom inside a term is a space, the
        separator, a right bracket (of a set, a compound, a statement) or a copula (look-ahead); after the
        term of a sentence a punctuation, a space or the end of input.  For Han the first characters of
-       all these -- space ， 』 】 ） 」 。 ！ ？ ； -- are NOT alphanumeric in Rust's table (han_alnum_facts; the
+       all these -- space ， 』 】 ） 」 。 ！ ？ ； -- are NOT alphanumeric in Rust's table (alnum_facts_han; the
        copulas are letters, but the look-ahead stops the scan in front of them).  So NO extra condition
        on what follows an atom is needed: the keywords that start with a name character (connecters, atom
        prefixes, stamp markers 过去 现在 将来 发生在, truth / budget brackets 真 值 预 算) never directly
